@@ -183,9 +183,26 @@ impl AstIter {
     { unimplemented!() }
 }
 #[verifier::external_body] pub fn s_ast_iter(v: Vec<AstNode<Expr>>) -> (r: AstIter) ensures r.rest() == v@ { unimplemented!() }
-/// CLOSURE BODY DROPPED: the compile-time construction of a map from its constant keys and values (HashMap insertion in order over
-/// `step_by(2)`: not expressible for Verus); NOT VERIFIED
-#[verifier::external_body] pub fn s_map_resolver(vals: Vec<CelValue>) -> CelValue { unimplemented!() }
+// ---- the compile-time value of a map literal (the resolver closure of the map arm; the run-time value is the VM's MkDict arm) ----
+/// the resolver receives the constants in emission order: value, key, value, key, ...
+pub open spec fn key_at(vals: Seq<CelValue>, j: int) -> CelValue { vals[2 * j + 1] }
+pub open spec fn val_at(vals: Seq<CelValue>, j: int) -> CelValue { vals[2 * j] }
+/// the map holds exactly the keys of the first n entries, and for a repeated key the entry written LAST wins
+pub open spec fn lit_map_ok(m: Map<String, CelValue>, vals: Seq<CelValue>, n: int) -> bool {
+    &&& forall|j: int| 0 <= j < n ==> (#[trigger] key_at(vals, j)) is String && m.contains_key(key_at(vals, j)->String_0)
+    &&& forall|k: String| #[trigger] m.contains_key(k) ==> exists|j: int| 0 <= j < n && (#[trigger] key_at(vals, j)) == CelValue::String(k)
+    &&& forall|j: int| 0 <= j < n && (forall|j2: int| j < j2 < n ==> (#[trigger] key_at(vals, j2)) != key_at(vals, j)) ==> m[key_at(vals, j)->String_0] == #[trigger] val_at(vals, j)
+}
+/// a map literal of constants folds to that map when every key is a string, and to a failure otherwise
+pub open spec fn lit_map_result(vals: Seq<CelValue>, res: CelValue) -> bool {
+    &&& (forall|j: int| 0 <= j < vals.len() / 2 ==> (#[trigger] key_at(vals, j)) is String) ==> res is Map && lit_map_ok(res->Map_0@, vals, vals.len() as int / 2)
+    &&& (exists|j: int| 0 <= j < vals.len() / 2 && !((#[trigger] key_at(vals, j)) is String)) ==> res is Err
+}
+/// `(a..b).step_by(k)`, materialized: a, a + k, a + 2k, ... below b (assumed std behaviour)
+#[verifier::external_body] pub fn s_step_by(r: std::ops::Range<usize>, step: usize) -> (o: Vec<usize>)
+    requires step > 0
+    ensures o@.len() == (if r.end > r.start { (r.end - r.start + step - 1) / step as int } else { 0 }), forall|j: int| 0 <= j < o@.len() ==> o@[j] == r.start + j * step
+{ unimplemented!() }
 /// `next_token != Some(Token::Colon)` on Option<Token>
 #[verifier::external_body] pub fn opt_tok_is_colon(a: &Option<Token>) -> (r: bool) ensures r == (*a is Some && a->Some_0 is Colon) { unimplemented!() }
 #[verifier::external_body] pub fn opt_ref_tok_is_rbrace(a: Option<&Token>) -> (r: bool) ensures r == (a is Some && *a->Some_0 is RBrace) { unimplemented!() }
@@ -344,7 +361,10 @@ def primary_contract(stub=False):
             &&& ({{ let pairs = l->Some_0.pairs; let items = flat_items(pairs); let n = items.len() as int; let span = hull({T0}.loc, toks[l->Some_0.end as int].loc);
                 &&& r->Ok_0.1 == mk_ast(Primary::ObjectInit(mk_ast(ObjInits {{ inits: vec_of_inits(pair_asts(pairs)) }}, span)), span)
                 &&& r->Ok_0.0.details@ == items_details(items, n)
-                &&& (if items_all_const(items, n) {{ node_view(r->Ok_0.0.inner) is Const }} else {{
+                &&& (if items_all_const(items, n) {{
+                        exists|vals: Seq<CelValue>| vals.len() == n && (forall|i: int| 0 <= i < n ==> items[i].node == SNode::Const(#[trigger] vals[i]))
+                            && node_view(r->Ok_0.0.inner) is Const && lit_map_result(vals, node_view(r->Ok_0.0.inner)->Const_0)
+                    }} else {{
                         node_view(r->Ok_0.0.inner) is Code && node_view(r->Ok_0.0.inner)->Code_0 =~= items_code(items, n) + lift(seq![ByteCode::MkDict(((2 * pairs.len()) as u32 / 2) as u32)])
                     }})
             }})
@@ -354,9 +374,24 @@ def primary_contract(stub=False):
     drop = lambda what: ('{ unverified_primary_arm() }', f'{what}: iterator unzip / step_by / a nested compiler, outside what Verus accepts; NOT VERIFIED')
     return A(ret='r', attrs=['#[verifier::exec_allows_no_decreases_clause]'], requires=[CURSOR], ensures=ens,
              arm_replace={},
-             closures={0: dict(types=['Vec<CelValue>'], ret='res: CelValue', ensures=[('the_list_of_the_values', 'res == list_val(c@)', ('C06', 'C09'))])},
-             closure_drop={1: ('s_map_resolver', 'the map-literal resolver closure (HashMap insertion over step_by(2)) is outside what Verus accepts')},
-             loops={1: dict(header='for segment in segments.iter()', ghost='it', invariant=[
+             closures={0: dict(types=['Vec<CelValue>'], ret='res: CelValue', ensures=[('the_list_of_the_values', 'res == list_val(c@)', ('C06', 'C09'))]),
+                       1: dict(types=['Vec<CelValue>'], ret='res: CelValue', requires=[('value_then_key_per_entry', 'vals@.len() % 2 == 0')],
+                               ensures=[('last_entry_wins_for_a_repeated_key_and_keys_must_be_strings', 'lit_map_result(vals@, res)', ('C06', 'C09'))])},
+             loops={2: dict(header='for i in (0..vals.len()).step_by(2)', ghost='it2', invariant=[
+                 ('even_indices', 'vals@.len() % 2 == 0 && it2.seq().len() == vals@.len() / 2 && forall|j: int| 0 <= j < it2.seq().len() ==> it2.seq()[j] == 2 * j'),
+                 ('entries_so_far_last_one_wins', 'lit_map_ok(obj_map@, vals@, it2.index@ as int)', ('C06', 'C09'))],
+                 pre='let ghost j0 = it2.index@ as int; let ghost om = obj_map@; assert(i == 2 * j0);',
+                 post='''proof {
+    assert(key_at(vals@, j0) == CelValue::String(*key));
+    assert(val_at(vals@, j0) == vals@[i as int]);
+    assert forall|k: String| #[trigger] obj_map@.contains_key(k) implies exists|j: int| 0 <= j < j0 + 1 && (#[trigger] key_at(vals@, j)) == CelValue::String(k) by {
+        if om.contains_key(k) { let j = choose|j: int| 0 <= j < j0 && (#[trigger] key_at(vals@, j)) == CelValue::String(k); assert(key_at(vals@, j) == CelValue::String(k)); } else { assert(k == *key); }
+    }
+    assert forall|j: int| 0 <= j < j0 + 1 && (forall|j2: int| j < j2 < j0 + 1 ==> (#[trigger] key_at(vals@, j2)) != key_at(vals@, j)) implies obj_map@[key_at(vals@, j)->String_0] == #[trigger] val_at(vals@, j) by {
+        if j < j0 { assert(key_at(vals@, j0) != key_at(vals@, j)); assert(forall|j2: int| j < j2 < j0 ==> (#[trigger] key_at(vals@, j2)) != key_at(vals@, j)); }
+    }
+}'''),
+                    1: dict(header='for segment in segments.iter()', ghost='it', invariant=[
                  ('segments_so_far', '''self.tokenizer.toks() == old(self).tokenizer.toks() && self.tokenizer.pos() == old(self).tokenizer.pos() + 1 && self.tokenizer.pos() <= self.tokenizer.toks().len() && self.next_label == old(self).next_label && self.bindings == old(self).bindings
                     && bytecode@.len() == 3 * it.index@ && details@ == fstr_details(segments@, it.index@ as int)
                     && (forall|i: int| 0 <= i < it.index@ ==> seg_ok(#[trigger] bytecode@[3 * i], bytecode@[3 * i + 1], bytecode@[3 * i + 2], segments@[i]))''', ('C14', 'C17', 'C10'))],
@@ -389,9 +424,11 @@ proof {
                        ('CelCompiler::with_tokenizer(&mut tok)', 's_compiler_for(&mut tok)', 'R2: unsizing &mut StringTokenizer -> &mut dyn Tokenizer is outside Verus: trampoline with the contract of with_tokenizer'),
                        ('bytecode.into_iter().collect()', 's_collect_points(bytecode)', 'R2m: Vec::into_iter().collect() into pre-resolved code -> trampoline (assumed: the same points in order)'),
                        ('obj_init.into_iter().unzip()', 's_unzip(obj_init)', 'R2m: Vec::into_iter().unzip() -> trampoline'),
+                       ('(0..vals.len()).step_by(2)', 's_step_by(0..vals.len(), 2)', 'R2m: Range::step_by -> materialized stand-in (assumed: start, start + step, ... below the end)'),
                        ('children_ast.into_iter()', 's_ast_iter(children_ast)', 'R2m: a vec::IntoIter driven by hand -> stand-in iterator (assumed: yields the elements in order)'),
                        ('expr_node_list.into_iter().unzip()', 's_unzip(expr_node_list)', 'R2m: Vec::into_iter().unzip() -> trampoline (assumed: the two component vectors, in order)')],
-             before={'let new_ast = AstNode::new(': '''proof {
+             before={'return CelValue::from_err(CelError::value( "Only strings can be object keys"': 'proof { assert(!(key_at(vals@, j0) is String)); }',
+                     'let new_ast = AstNode::new(': '''proof {
     let fa = items_asts(flat_items(l1.pairs));
     assert(fa.skip(2 * init_asts@.len() as int).len() == 0);
     assert(init_asts@.len() == l1.pairs.len());
@@ -468,6 +505,64 @@ def obj_inits_contract():
         props=('C02', 'C06', 'C17', 'C18', 'C01'))
 
 
+
+MAP_LEMMAS = r"""
+// ---- a folded map literal is the map the VM would build (C06: "identically at compile time and run time") -------------------------
+// dict_state is the postcondition of the VM's MkDict arm (unit interp_vm_g6), its text is taken from there at generation time
+%s
+/// the VM pops the n (value, key) pairs last-written first: keys[t] / rvals[t] are entry n-1-t of the source
+pub open spec fn popped_order(vals: Seq<CelValue>, n: int, keys: Seq<String>, rvals: Seq<CelValue>) -> bool {
+    &&& n >= 0 && vals.len() == 2 * n && keys.len() == n && rvals.len() == n
+    &&& forall|t: int| 0 <= t < n ==> key_at(vals, n - 1 - t) == CelValue::String(#[trigger] keys[t]) && val_at(vals, n - 1 - t) == rvals[t]
+}
+pub proof fn lemma_folded_map_is_the_runtime_map(m: Map<String, CelValue>, vals: Seq<CelValue>, n: int, keys: Seq<String>, rvals: Seq<CelValue>)
+    requires popped_order(vals, n, keys, rvals), lit_map_ok(m, vals, n)
+    ensures dict_state(m, keys, rvals)
+{
+    assert forall|t: int| 0 <= t < keys.len() implies m.contains_key(#[trigger] keys[t]) by {
+        assert(key_at(vals, n - 1 - t) == CelValue::String(keys[t]));
+    }
+    assert forall|k: String| #[trigger] m.contains_key(k) implies exists|t: int| 0 <= t < keys.len() && keys[t] == k by {
+        let j = choose|j: int| 0 <= j < n && (#[trigger] key_at(vals, j)) == CelValue::String(k);
+        let t = n - 1 - j;
+        assert(key_at(vals, n - 1 - t) == CelValue::String(keys[t]));
+        assert(keys[t] == k);
+    }
+    assert forall|t: int| 0 <= t < keys.len() && (forall|t2: int| 0 <= t2 < t ==> keys[t2] != keys[t]) implies m[#[trigger] keys[t]] == rvals[t] by {
+        let j = n - 1 - t;
+        assert(key_at(vals, j) == CelValue::String(keys[t]));
+        assert forall|j2: int| j < j2 < n implies (#[trigger] key_at(vals, j2)) != key_at(vals, j) by {
+            let t2 = n - 1 - j2;
+            assert(key_at(vals, n - 1 - t2) == CelValue::String(keys[t2]));
+            assert(keys[t2] != keys[t]);
+        }
+        assert(m[key_at(vals, j)->String_0] == val_at(vals, j));
+    }
+}
+pub proof fn lemma_runtime_map_is_the_folded_map(m: Map<String, CelValue>, vals: Seq<CelValue>, n: int, keys: Seq<String>, rvals: Seq<CelValue>)
+    requires popped_order(vals, n, keys, rvals), dict_state(m, keys, rvals)
+    ensures lit_map_ok(m, vals, n)
+{
+    assert forall|j: int| 0 <= j < n implies (#[trigger] key_at(vals, j)) is String && m.contains_key(key_at(vals, j)->String_0) by {
+        let t = n - 1 - j; assert(key_at(vals, n - 1 - t) == CelValue::String(keys[t]));
+    }
+    assert forall|k: String| #[trigger] m.contains_key(k) implies exists|j: int| 0 <= j < n && (#[trigger] key_at(vals, j)) == CelValue::String(k) by {
+        let t = choose|t: int| 0 <= t < keys.len() && keys[t] == k;
+        assert(key_at(vals, n - 1 - t) == CelValue::String(keys[t]));
+    }
+    assert forall|j: int| 0 <= j < n && (forall|j2: int| j < j2 < n ==> (#[trigger] key_at(vals, j2)) != key_at(vals, j)) implies m[key_at(vals, j)->String_0] == #[trigger] val_at(vals, j) by {
+        let t = n - 1 - j;
+        assert(key_at(vals, n - 1 - t) == CelValue::String(keys[t]));
+        assert forall|t2: int| 0 <= t2 < t implies keys[t2] != keys[t] by {
+            let j2 = n - 1 - t2;
+            assert(key_at(vals, n - 1 - t2) == CelValue::String(keys[t2]));
+            assert(key_at(vals, j2) != key_at(vals, j));
+        }
+        assert(m[keys[t]] == rvals[t]);
+    }
+}
+"""
+
 def build():
     U = Unit('parser_unary')
     U.global_rewrites.append(C.DYN_REWRITE)
@@ -517,12 +612,14 @@ def build():
         'from_null': C.simple_ctor(C.CTORS['from_null'], stub=True),
         'from_int': C.simple_ctor(C.CTORS['from_int'], stub=True), 'from_uint': C.simple_ctor(C.CTORS['from_uint'], stub=True),
         'from_float': C.simple_ctor(C.CTORS['from_float'], stub=True), 'from_bool': C.simple_ctor(C.CTORS['from_bool'], stub=True),
-        'from_string': C.simple_ctor(C.CTORS['from_string'], stub=True),
+        'from_string': C.simple_ctor(C.CTORS['from_string'], stub=True), 'from_map': C.simple_ctor(C.CTORS['from_map'], stub=True), 'from_err': C.simple_ctor(C.CTORS['from_err'], stub=True),
     }, others='stub')
     U.raw(C.FROM_SPEC_IMPLS, 'From spec impls')
     C.from_impls(U, which=('i64', 'u64', 'f64', 'bool', 'CelError'))
     U.extract(C.CV, 'impl From<String> for CelValue', fns={'from': C.simple_ctor('r == CelValue::String(val)')})
     U.extract(C.CV, 'impl From<CelBytes> for CelValue', fns={'from': C.simple_ctor('r == CelValue::Bytes(value)')})
+    U.extract(C.CV, 'impl From<HashMap<String, CelValue>> for CelValue', fns={'from': C.simple_ctor('r == CelValue::Map(val)')})
+    U.raw('impl vstd::std_specs::convert::FromSpecImpl<HashMap<String, CelValue>> for CelValue { open spec fn obeys_from_spec() -> bool { true } open spec fn from_spec(v: HashMap<String, CelValue>) -> Self { CelValue::Map(v) } }', 'From spec impl (maps)')
     U.extract('rscel/src/types/cel_bytes.rs', 'impl Into<Vec<u8>> for CelBytes', fns={'into': A(props=('C13', 'C01'))})
     cp = S.stubbed(S.compprog_contracts())
     cp['from_children_w_bytecode'] = S.stubbed({'x': S.FCWB})['x']
@@ -540,5 +637,9 @@ def build():
         'parse_obj_inits': obj_inits_contract(),
         'with_tokenizer': A(ret='r', ensures=[('fresh_compiler_on_that_tokenizer', 'r.c_toks() == old(tokenizer).toks() && r.c_pos() == old(tokenizer).pos() && r.c_lbl() == 0')], props=('C10', 'C01')),
     })
+    from . import interp_vm as VM
+    from .balance import slice_fn
+    U.raw(MAP_LEMMAS % slice_fn(VM.SPECS, 'dict_state'), 'folded map = run-time map (lemmas)')
+    U.lemmas = [('lemma_folded_map_is_the_runtime_map', ('C06', 'C09')), ('lemma_runtime_map_is_the_folded_map', ('C06', 'C09'))]
     U.raw(C.FOOTER, 'footer')
     return U
